@@ -194,6 +194,30 @@ mutual
       | _, _ => none
 end
 
+/-! ### "touches nothing else" -/
+
+mutual
+  /-- same structure, same keys, same non-string/number values; a string / number leaf may have
+      become another string -/
+  def sameShape : JTree → JTree → Bool
+    | .null, .null => true
+    | .bool a, .bool b => a == b
+    | .num a, .num b => a == b
+    | .num _, .str _ => true
+    | .str _, .str _ => true
+    | .arr xs, .arr ys => sameShapeList xs ys
+    | .obj kvs, .obj kvs' => sameShapeKVs kvs kvs'
+    | _, _ => false
+  def sameShapeList : List JTree → List JTree → Bool
+    | [], [] => true
+    | x :: xs, y :: ys => sameShape x y && sameShapeList xs ys
+    | _, _ => false
+  def sameShapeKVs : List (Bytes × JTree) → List (Bytes × JTree) → Bool
+    | [], [] => true
+    | (k, x) :: xs, (k', y) :: ys => k == k' && sameShape x y && sameShapeKVs xs ys
+    | _, _ => false
+end
+
 /-! ### the property oracle applied to an observed result -/
 
 def markNames (c : Cfg) : List Bytes :=
